@@ -60,7 +60,7 @@ CONFIGS = {
         # context table: forged new SSRCs, idle time, eviction above the high-water mark
         ("table", conf(Ssrcs="{1, 2}", ForgedSsrcs="{8, 9}", SeqAlpha="{15, 0, 1}", StartIdx="{16}", StepsFwd="{1}",
                        StepsBack="{}", WithTick="TRUE", RtpForgeKinds='{"newssrc", "wrongkey"}',
-                       RtcpForgeKinds='{"newssrc"}', WithRtcp="TRUE", ForgeOffsets="{1}", ForgeReps="{1, 5}", MaxLen=5, MaxSent=3)),
+                       RtcpForgeKinds='{"newssrc"}', WithRtcp="TRUE", ForgeOffsets="{1}", MaxLen=5, MaxSent=3)),
         # more genuine streams than the high-water mark: legitimate eviction by authenticated traffic; forged
         # packets arriving while the table is over the mark and contexts are stale must still change nothing
         ("churn", conf(Ssrcs="{1, 2, 3}", ForgedSsrcs="{9}", SeqAlpha="{15, 0}", StartIdx="{16}", StepsFwd="{1}",
@@ -96,8 +96,8 @@ SIM = {
     "C05": [("sim/forge", conf(Ssrcs="{1, 2}", ForgedSsrcs="{9}", MaxRoc=3, StartIdx="{15, 30}", StepsFwd="{1, 7}",
                                StepsBack="{1}", WithRtcp="TRUE", WithTick="TRUE",
                                RtpForgeKinds='{"flip_hdr", "flip_tag", "reseq", "wrongkey", "newssrc"}',
-                               RtcpForgeKinds='{"reindex", "flip_tag", "newssrc"}', ForgeOffsets="{1, 9}", ForgeReps="{1, 4, 5}",
-                               MaxLen=16, MaxSent=8), 30, 200)],
+                               RtcpForgeKinds='{"reindex", "flip_tag", "newssrc"}', ForgeOffsets="{1, 9}", ForgeReps="{1, 4}",
+                               MaxLen=16, MaxSent=8), 16, 200)],
 }
 
 INVARIANTS = "TypeOK SenderAgreement IndexAgreement NoPhantomIndex NoLossByEviction Rejected RtcpAccepted"
